@@ -424,3 +424,37 @@ Theorem C03_fragment_code_instance :
   wf_b (FTick 97 [] $"x`y" []) = false /\ wf_b (FTick 97 [] $"x" $" ") = false.
 Proof. vm_compute. repeat split; reflexivity. Qed.
 Print Assumptions C03_fragment_code_instance.
+
+(* a STRUCK-THROUGH phrase inside a sentence (Proofs/StrikeSentence.v): pre ~~w~~ post - the three texts free of trigger characters, w not
+   empty - tokenizes to the text, one Strikethrough holding w, the text: Strikethrough.pattern (look-behind, escaped backslashes, the lazy
+   content closed by the first ~~) evaluated exactly, pattern.finditer finding this match and no other, the core-token scanner passing
+   over the tildes, the candidate tokenizer parsing the content of the match; strike_spans holds of all six configurations *)
+From Mistletoe Require Import Proofs.StrikeSentence Proofs.EscSentence.
+Theorem C03_strike_in_sentence : forall types fn pre w post,
+  strike_spans types = true -> strike_ok pre w post = true ->
+  Inline.tokenize_inner types fn (pre ++ [126%Z; 126%Z] ++ w ++ [126%Z; 126%Z] ++ post) = EmphSentence.raw_if pre ++ [Strikethrough [RawText w]] ++ EmphSentence.raw_if post.
+Proof. exact strike_in_sentence. Qed.
+Print Assumptions C03_strike_in_sentence.
+
+Theorem C03_strike_in_sentence_hypotheses :
+  (map (fun c => strike_spans (cfg_span c)) [cfg_html; cfg_html_nohtml; cfg_markdown; cfg_latex; cfg_mathjax; cfg_default] = [true; true; true; true; true; true]) /\
+  (strike_ok ($"this is ") ($"gone, really") ($" now.") = true) /\ (strike_ok [] ($"a~b") [] = false) /\ (strike_ok [] [] [] = false).
+Proof. split; [exact strike_configs|exact strike_instance]. Qed.
+Print Assumptions C03_strike_in_sentence_hypotheses.
+
+(* a BACKSLASH ESCAPE inside a sentence (Proofs/EscSentence.v): pre \c post - c one of ! (double quote) # % (quote) ( ) * + , - . / : ; = > ? @ [ (backslash) ] ^ _ }
+   (the ASCII punctuation EscapeSequence.pattern accepts, less the seven characters another span finder needs), pre and post free of
+   trigger characters - tokenizes to the text, one EscapeSequence holding c as raw text, the text: the scanner of the core tokens takes
+   the backslash as an escape, so that an escaped * _ [ ] or ! opens, closes and starts nothing *)
+Theorem C03_escape_in_sentence : forall types fn pre c post,
+  esc_spans types = true -> esc_ok pre c post = true ->
+  Inline.tokenize_inner types fn (pre ++ [92%Z; c] ++ post) = EmphSentence.raw_if pre ++ [EscapeSequence [RawText [c]]] ++ EmphSentence.raw_if post.
+Proof. exact escape_in_sentence. Qed.
+Print Assumptions C03_escape_in_sentence.
+
+Theorem C03_escape_in_sentence_hypotheses :
+  (map (fun c => esc_spans (cfg_span c)) [cfg_html; cfg_html_nohtml; cfg_markdown; cfg_latex; cfg_mathjax; cfg_default] = [true; true; true; true; true; true]) /\
+  (filter esc_char (map Z.of_nat (seq 0 128)) = [33; 34; 35; 37; 39; 40; 41; 42; 43; 44; 45; 46; 47; 58; 59; 61; 62; 63; 64; 91; 92; 93; 94; 95; 125]%Z) /\
+  (esc_ok ($"not ") 42%Z ($"emphasis") = true) /\ (esc_ok [] 96%Z [] = false) /\ (esc_ok [] 97%Z [] = false).
+Proof. split; [exact esc_configs|]. vm_compute. repeat split; reflexivity. Qed.
+Print Assumptions C03_escape_in_sentence_hypotheses.
